@@ -43,10 +43,49 @@ def _find_assign(tree, funcname, target):
     return out
 
 
+class _Inline(ast.NodeTransformer):
+    """Replace calls of module-level helper functions whose body is a single
+    ``return <expression>`` by that expression (arguments substituted), so that
+    a refactoring which moves the formula into a helper stays translatable."""
+
+    def __init__(self, module):
+        self.helpers = {}
+        for node in module.body:
+            if isinstance(node, ast.FunctionDef) and not node.decorator_list:
+                body = [b for b in node.body
+                        if not (isinstance(b, ast.Expr) and isinstance(b.value, ast.Constant))]
+                if len(body) == 1 and isinstance(body[0], ast.Return) and body[0].value is not None \
+                        and not node.args.vararg and not node.args.kwarg and not node.args.kwonlyargs:
+                    self.helpers[node.name] = (
+                        [a.arg for a in node.args.args], body[0].value)
+
+    def visit_Call(self, node):
+        self.generic_visit(node)
+        if isinstance(node.func, ast.Name) and node.func.id in self.helpers:
+            params, expr = self.helpers[node.func.id]
+            binding = {}
+            for p, a in zip(params, node.args):
+                binding[p] = a
+            for kw in node.keywords:
+                if kw.arg in params:
+                    binding[kw.arg] = kw.value
+            if set(binding) != set(params):
+                return node
+
+            class Sub(ast.NodeTransformer):
+                def visit_Name(self, n):
+                    return binding.get(n.id, n)
+            import copy
+            return self.visit(Sub().visit(copy.deepcopy(expr)))
+        return node
+
+
 def source_expressions():
     """[(where, frac_expr_ast, ribbon_expr_ast, width_name)]"""
     pp = ast.parse(open(os.path.join(REPO, 'prettyprinter', 'prettyprinter.py')).read())
     lay = ast.parse(open(os.path.join(REPO, 'prettyprinter', 'layout.py')).read())
+    pp_inline = _Inline(pp)
+    lay_inline = _Inline(lay)
     fr = _find_assign(pp, 'python_to_sdocs', 'ribbon_frac')
     if len(fr) != 1:
         raise Untranslatable('ribbon_frac assignment in python_to_sdocs not found exactly once')
@@ -57,7 +96,7 @@ def source_expressions():
         rb = _find_assign(lay, fn, 'ribbon_width')
         if len(rb) != 1:
             raise Untranslatable('ribbon_width assignment in %s not found exactly once' % fn)
-        out.append((fn, fr[0], rb[0], wname))
+        out.append((fn, pp_inline.visit(fr[0]), lay_inline.visit(rb[0]), wname))
     return out
 
 
